@@ -220,6 +220,191 @@ def replay_ome_wiring(point, mode, is_msbar):
     return {"detail": "; ".join(bad)} if bad else None
 
 
+class _Rec:
+    """records calls; returns a distinguishable token (or a symbolic matrix where the caller does arithmetic on the result)"""
+
+    def __init__(self, name, result):
+        self.name, self.result, self.calls = name, result, []
+
+    def __call__(self, *a, **k):
+        self.calls.append((a, k))
+        return self.result(len(self.calls) - 1) if callable(self.result) else self.result
+
+
+def case_qed_routing(log, pid, sector, mode, thr, its=2):
+    """quad_ker_qed: every callee (ekore grid, exponentiated shift, sector dispatcher, expanded kernel K, element selector) replaced by
+    a recorder; decided: which callee gets which argument in which slot -- in particular the *last* a_s node and the a_em of the last
+    mid-point for K, the a_em column (not the a_s column) of the mid-point couplings for the non-singlet dispatcher, all of as_list and
+    a_half for the matrix sectors, lepton number of the final scale, and K applied only in the expanded scheme away from thresholds."""
+    qk = sym_module("eko.evolution_operator.quad_ker")
+    import eko.scale_variations as svmod
+    from eko.kernels import EvoMethods
+
+    log.encode(qk.quad_ker_qed)
+    rp = (MOD, "replay_qed_routing", {"sector": sector, "mode": mode, "thr": thr, "its": its})
+    key = "quad_ker_qed.routing:%s:%s" % (sector, mode)
+    log.register_replay(key, rp, _sampler)
+    tag = "%s, %s, is_threshold=%s, %d steps" % (sector, mode, thr, its)
+
+    def Z(ok, what):
+        v = prove_zero(Cx.lift(SR(0 if ok else 1)), "%s [%s]" % (what, tag))
+        log.decide(v, key=key, replay=rp, sampler=_sampler)
+
+    def run():
+        kb = _Obj()
+        kb.is_QEDsinglet, kb.is_QEDvalence, kb.is_singlet, kb.n = sector == "singlet", sector == "valence", False, SR.var("N")
+        order, nf = (3, 2), 4
+        as_list = realnp.array([SR.var("as_n%d" % i) for i in range(its + 1)], dtype=object)
+        a_half = realnp.array([[SR.var("ash%d" % i), SR.var("aemh%d" % i)] for i in range(its)], dtype=object)
+        m0, m1, L = SR.var("mu2_from"), SR.var("mu2_to"), SR.var("Lsv")
+        g0, g1 = object(), object()
+        dim = {"singlet": 4, "valence": 2, "ns": 1}[sector]
+        kmat = realnp.array([[SR.var("k_%d%d" % (i, j)) for j in range(dim)] for i in range(dim)], dtype=object) if dim > 1 else SR.var("k")
+        Kmat = realnp.array([[SR.var("K_%d%d" % (i, j)) for j in range(dim)] for i in range(dim)], dtype=object) if dim > 1 else SR.var("K")
+        rec = {n: _Rec(n, r) for n, r in (("grid", g0), ("shift", g1), ("disp", kmat), ("K", Kmat), ("lep", "leptons-token"))}
+        sel = _Rec("select", lambda i: SR.var("selected"))
+        names = {"singlet": ("gamma_singlet_qed", "qed_s", "singlet_variation_qed", "select_QEDsinglet_element"),
+                 "valence": ("gamma_valence_qed", "qed_v", "valence_variation_qed", "select_QEDvalence_element"),
+                 "ns": ("gamma_ns_qed", "qed_ns", "non_singlet_variation_qed", None)}[sector]
+        saved = []
+
+        def patch(obj, attr, val):
+            saved.append((obj, attr, getattr(obj, attr)))
+            setattr(obj, attr, val)
+
+        patch(qk.ad_us, names[0], rec["grid"])
+        patch(qk.sv_exponentiated, "gamma_variation_qed", rec["shift"])
+        patch(getattr(qk, names[1]), "dispatcher", rec["disp"])
+        patch(qk.sv_expanded, names[2], rec["K"])
+        patch(qk, "lepton_number", rec["lep"])
+        if names[3]:
+            patch(qk, names[3], sel)
+        var = (1, 2, 3, 4, 5, 6, 7)
+        try:
+            out = qk.quad_ker_qed(kb, order, 10102 if sector == "ns" else 100, 0 if sector == "ns" else 21, EvoMethods.ITERATE_EXACT, as_list, m0, m1, a_half, True,
+                                  nf, L, its, (5, 0), svmod.Modes[mode], thr, var, True)
+        finally:
+            for obj, attr, val in reversed(saved):
+                setattr(obj, attr, val)
+        c = rec["grid"].calls
+        want_grid = (order, 10102, kb.n, nf, var, True) if sector == "ns" else (order, kb.n, nf, var, True)
+        Z(len(c) == 1 and len(c[0][0]) == len(want_grid) and all(x is y or x == y for x, y in zip(c[0][0], want_grid)), "the ekore grid is asked with (order, [mode,] N, nf, variation, use_fhmruvv)")
+        gam = g0
+        c = rec["shift"].calls
+        if mode == "exponentiated":
+            Z(len(c) == 1 and c[0][0][0] is g0 and c[0][0][1] == order and c[0][0][2] == nf and c[0][0][3] == "leptons-token" and c[0][0][4] is L and c[0][0][5] is True,
+              "exponentiated: gamma_variation_qed(grid, order, nf, lepton_number, Lsv, alphaem_running)")
+            Z(len(rec["lep"].calls) == 1 and rec["lep"].calls[0][0][0] is m1, "lepton number taken at the final scale")
+            gam = g1
+        else:
+            Z(len(c) == 0, "no exponentiated shift outside the exponentiated scheme")
+        c = rec["disp"].calls
+        if sector == "ns":
+            ok = len(c) == 1 and len(c[0][0]) == 10
+            if ok:
+                a = c[0][0]
+                col = a[4]
+                ok = (a[0] == order and a[1] == EvoMethods.ITERATE_EXACT and a[2] is gam and a[3] is as_list and len(col) == its
+                      and all((SR(0) + col[i] - a_half[i, 1]).v.canon().n.is_zero() for i in range(its)) and a[5] is True and a[6] == nf and a[7] == its and a[8] is m0 and a[9] is m1)
+            Z(ok, "non-singlet dispatcher(order, method, gamma, as_list, a_em column of the mid-point couplings, alphaem_running, nf, iterations, mu2_from, mu2_to)")
+        else:
+            ok = len(c) == 1 and len(c[0][0]) == 8
+            if ok:
+                a = c[0][0]
+                ok = a[0] == order and a[1] == EvoMethods.ITERATE_EXACT and a[2] is gam and a[3] is as_list and a[4] is a_half and a[5] == nf and a[6] == its and a[7] == (5, 0)
+            Z(ok, "%s dispatcher(order, method, gamma, as_list, a_half, nf, iterations, expansion order)" % sector)
+        c = rec["K"].calls
+        if mode == "expanded" and not thr:
+            ok = len(c) == 1 and len(c[0][0]) == 7
+            if ok:
+                a = c[0][0]
+                ok = (a[0] is gam and (SR(0) + a[1] - as_list[its]).v.canon().n.is_zero() and (SR(0) + a[2] - a_half[its - 1, 1]).v.canon().n.is_zero()
+                      and a[3] is True and a[4] == order and a[5] == nf and a[6] is L)
+            Z(ok, "expanded: K(gamma, last a_s node, a_em of the last mid-point, alphaem_running, order, nf, Lsv)")
+            want = (Kmat @ kmat) if dim > 1 else Kmat * kmat
+        else:
+            Z(len(c) == 0, "K only in the expanded scheme away from thresholds")
+            want = kmat
+        if names[3]:
+            c = sel.calls
+            ok = len(c) == 1 and c[0][0][1] == 100 and c[0][0][2] == 21
+            if ok:
+                got = c[0][0][0]
+                ok = all((SR(0) + got[i, j] - want[i, j]).v.canon().n.is_zero() for i in range(dim) for j in range(dim))
+            Z(ok, "the element selector receives K @ kernel (K on the left) and the two labels")
+        else:
+            Z((SR(0) + out - want).v.canon().n.is_zero(), "the result is K * kernel")
+        log.twin("domain")
+        log.collect_ctx()
+
+    _r, pm = explore(run)
+    log.path_stats(pm)
+
+
+def replay_qed_routing(point, sector, mode, thr, its):
+    """the real quad_ker_qed with numeric recorders: a result that depends on exactly the documented arguments"""
+    import importlib
+    from unittest import mock
+    import numpy as np
+    import eko.scale_variations as svmod
+    from eko.kernels import EvoMethods
+
+    qk = importlib.import_module("eko.evolution_operator.quad_ker")
+    dim = {"singlet": 4, "valence": 2, "ns": 1}[sector]
+    names = {"singlet": ("gamma_singlet_qed", "qed_s", "singlet_variation_qed"), "valence": ("gamma_valence_qed", "qed_v", "valence_variation_qed"), "ns": ("gamma_ns_qed", "qed_ns", "non_singlet_variation_qed")}[sector]
+    seen = {}
+    as_list = np.array([0.02 + 0.003 * i for i in range(its + 1)])
+    a_half = np.array([[0.021 + 0.003 * i, 0.0007 + 1e-5 * i] for i in range(its)])
+
+    def grid(*a):
+        seen["grid"] = a
+        return np.zeros((4, 3, dim, dim)) if dim > 1 else np.zeros((4, 3))
+
+    def shift(g, *a):
+        seen["shift"] = a
+        return g
+
+    def disp(*a):
+        seen["disp"] = a
+        return np.eye(dim) * 2.0 if dim > 1 else 2.0
+
+    def K(*a):
+        seen["K"] = a
+        return np.eye(dim) * 3.0 if dim > 1 else 3.0
+
+    class KB:
+        is_QEDsinglet, is_QEDvalence, is_singlet, n = sector == "singlet", sector == "valence", False, 2.0 + 0.5j
+
+    with mock.patch.object(qk.ad_us, names[0], grid), mock.patch.object(qk.sv_exponentiated, "gamma_variation_qed", shift), \
+            mock.patch.object(getattr(qk, names[1]), "dispatcher", disp), mock.patch.object(qk.sv_expanded, names[2], K):
+        qk.quad_ker_qed(KB(), (3, 2), 10102 if sector == "ns" else 100, 0 if sector == "ns" else 100, EvoMethods.ITERATE_EXACT, as_list, 10.0, 100.0, a_half, True, 4, 0.6, its,
+                        (5, 0), svmod.Modes[mode], thr, (1, 2, 3, 4, 5, 6, 7), True)
+    bad = []
+    d = seen.get("disp")
+    if d is None:
+        bad.append("no dispatcher call")
+    elif sector == "ns":
+        if not np.allclose(d[4], a_half[:, 1], rtol=0, atol=0) or not np.allclose(d[3], as_list, rtol=0, atol=0):
+            bad.append("non-singlet dispatcher received couplings %r / mid-point column %r; documented as_list %r and the a_em column %r" % (list(d[3]), list(d[4]), list(as_list), list(a_half[:, 1])))
+    elif not (np.array_equal(d[3], as_list) and np.array_equal(d[4], a_half)):
+        bad.append("%s dispatcher received other couplings than as_list / a_half" % sector)
+    if mode == "expanded" and not thr:
+        k = seen.get("K")
+        if k is None or k[1] != as_list[-1] or k[2] != a_half[-1][1]:
+            bad.append("K evaluated at a_s=%r, a_em=%r; documented: last node %r and a_em of the last mid-point %r" % (None if k is None else k[1], None if k is None else k[2], as_list[-1], a_half[-1][1]))
+    elif "K" in seen:
+        bad.append("K applied although the scheme is %s / is_threshold=%s" % (mode, thr))
+    if (mode == "exponentiated") != ("shift" in seen):
+        bad.append("exponentiated shift applied=%s in scheme %s" % ("shift" in seen, mode))
+    return {"detail": "quad_ker_qed (%s, %s): %s" % (sector, mode, "; ".join(bad))} if bad else None
+
+
+def add_qed_routing(chk, pid, thorough):
+    for sector in ("singlet", "valence", "ns"):
+        for mode, thr in (("unvaried", False), ("exponentiated", False), ("expanded", False), ("expanded", True)):
+            chk.case("routing.qed.%s.%s.thr%d" % (sector, mode, thr), case_qed_routing, pid=pid, sector=sector, mode=mode, thr=thr, its=3 if thorough else 2)
+
+
 class _Stop(Exception):
     pass
 
@@ -388,6 +573,8 @@ def replay_wiring(point, order, mode, thr, its, running):
     c = man.couplings.calls
     if len(c) != 2 or abs(c[0][1] - want0) > 1e-9 * want0 or abs(c[1][1] - want1) > 1e-9 * want1:
         bad.append("compute_a asked the couplings at %r, documented (%r, %r)" % ([x[1] for x in c], want0, want1))
+    if any(x[2] != op.nf for x in c):
+        bad.append("compute_a asked the couplings with nf_to = %r, documented: the segment's nf = %r" % ([x[2] for x in c], op.nf))
     del c[:]
     op.as_list, op.a_half_list = op.compute_aem_list()
     if order[1] > 0:
@@ -399,6 +586,8 @@ def replay_wiring(point, order, mode, thr, its, running):
         mids = [(nodes[k] + nodes[k + 1]) / 2 for k in range(its)]
         if len(s_a) != its or not np.allclose(s_a, mids, rtol=1e-10):
             bad.append("half-step couplings asked at %r, expected the step midpoints %r" % (s_a, mids))
+    if any(x[2] != op.nf for x in c):
+        bad.append("compute_aem_list asked the couplings with nf_to = %r, documented: the segment's nf = %r" % ([x[2] for x in c], op.nf))
     kw = op.quad_ker((10200, 0), -1.0, ("areas",)).keywords
     if abs(kw["Lsv"] - math.log(xi)) > 1e-12:
         bad.append("Lsv = %r handed to the kernel, documented ln(xif2) = %r" % (kw["Lsv"], math.log(xi)))
